@@ -467,7 +467,7 @@ class C17(Proto):
 class C13(Proto):
     id = "C13"
     lean_module = "Props.C13"
-    streams = [("C13", "knxdrv", 0.95), ("C13rt", None, 0.05)]
+    streams = [("C13", "knxdrv", 0.9), ("C13rt", None, 0.1)]
     rule = ("scripts for the real Router on an in-memory socket under virtual time, uncontended (a lock-needing event only "
             "when the send lock is free - a goroutine waiting for sync.Mutex cannot be driven under virtual time): Sends, "
             "failing Sends, routing indications, reads, lost indications (counts 0,1,2,3,31,32,33,64,65535), busy indications "
@@ -489,8 +489,13 @@ class C13(Proto):
 class C14(Proto):
     id = "C14"
     lean_module = "Props.C14"
+    streams = [("C14", "knxdrv", 0.85), ("C14f", None, 0.1), ("C17rt", None, 0.05)]
     rule = ("router scripts as for C13 with lost indications in half of the steps, one script of 300 steps; retained list and "
-            "retransmissions compared exactly with the model and recomputed by the monitor from the transmissions observed.")
+            "retransmissions compared exactly with the model and recomputed by the monitor from the transmissions observed. "
+            "Stream C14f (monitor only): batches of resends in which the socket refuses the write of one or two particular "
+            "telegrams (front, middle, end of the batch): the others are still retransmitted, in order, and only they are "
+            "retained. Stream C17rt (real time): routing indications to a waiting / absent / intermittent reader are handed "
+            "to Inbound exactly once and in order.")
     technique = "Lean 4 proof (list laws of the retainer, induction over the grant chain and over label sequences) + exact trace correspondence under testing/synctest"
     level_text = ("Theorems: the retained list never exceeds the configured count (32 when 0) in any reachable state (induction over "
                   "label sequences and over the lock hand-off chain); failed transmissions are not retained; an idle client told "
